@@ -533,9 +533,54 @@ class MeshInit(Contract):
             out += s.subregion_raises(E, st)
         return out
 
+    def sub_lattice(s, E, st):
+        """use sites with subregions: the lattice coordinates (a_j, b_j) of every given subregion relative to the NEW mesh,
+        read off syntactically ((corner - pmin)/cell must cancel to an integer-valued term); None if that fails"""
+        from pyvc.core import cancel, int_of
+        reg = st.region.attrs
+        if st.cell is not None:
+            cells = [R(c) for c in st.cell]
+        else:
+            return None
+        out = {}
+        for name, sr in st.subregions.items():
+            if not (isinstance(name, str) and isinstance(sr, Obj) and sr.cls == 'Region'):
+                return None
+            a, b = [], []
+            for j, c in enumerate(cells):
+                def quot(num):
+                    num = z3.simplify(toreal(num), som=True)
+                    if z3.is_rational_value(num) and num.as_fraction() == 0:
+                        return z3.IntVal(0)
+                    q_ = cancel(num, toreal(c))
+                    return int_of(z3.simplify(q_)) if q_ is not None else None
+                ia = quot(R(sr.attrs['_pmin'].elems[j]) - R(reg['_pmin'].elems[j]))
+                ib = quot(R(sr.attrs['_pmax'].elems[j]) - R(reg['_pmin'].elems[j]))
+                if ia is None or ib is None:
+                    return None
+                a.append(z3.simplify(ia))
+                b.append(z3.simplify(ib))
+            out[name] = (a, b)
+        return out
+
     def subregion_raises(s, E, st):
-        # filled in by contracts.c14 (subregion setter contract); without subregions nothing to add
-        raise Unsupported('Mesh.__init__ with subregions: use the C14 setter contract')
+        """contract of the subregion setter (proved under C14) for subregions that sit on the lattice of the new mesh:
+        accepted iff inside (0 <= a < b <= n); anything else is outside the modular use of this contract"""
+        lat = s.sub_lattice(E, st)
+        if lat is None:
+            raise Unsupported('Mesh.__init__ with subregions that are not syntactically on the cell lattice: use the C14 setter contract')
+        st.lat = lat
+        from pyvc.core import cancel, int_of
+        edges = s._edges(st)
+        conds = []
+        for name, (a, b) in lat.items():
+            for j, (aj, bj) in enumerate(zip(a, b)):
+                q_ = cancel(toreal(edges[j]), toreal(R(st.cell[j])))
+                nj = int_of(z3.simplify(q_)) if q_ is not None else None
+                if nj is None:
+                    raise Unsupported('Mesh.__init__ with subregions: cell count of the new mesh not known syntactically')
+                conds.append(z3.Not(z3.And(aj >= 0, aj < bj, bj <= nj)))
+        return [('ValueError', disj(conds))]
 
     def post(s, E, st, result):
         o = st.self
@@ -578,4 +623,10 @@ class MeshInit(Contract):
         o.attrs['_n'] = Vec(ns, 'int')
         o.attrs['_bc'] = st.bc.lower()
         o.attrs['_subregions'] = {}
+        if st.subregions:
+            # accepted lattice subregions are re-created with the mesh's dims / units / tolerance (setter contract, C14)
+            reg = st.region.attrs
+            for name, sr in st.subregions.items():
+                o.attrs['_subregions'][name] = Obj('Region', {'_pmin': Vec(list(sr.attrs['_pmin'].elems)), '_pmax': Vec(list(sr.attrs['_pmax'].elems)),
+                                                              '_dims': reg['_dims'], '_units': reg['_units'], '_tolerance_factor': reg['_tolerance_factor']})
         return None
